@@ -79,7 +79,7 @@ def evaluate(plan, ctx):
     return Result(nt, ev)
 
 
-SUBCHECKS = [SubCheck("refit", strategy, evaluate, quick=2500, thorough=40000)]
+SUBCHECKS = [SubCheck("refit", strategy, evaluate, quick=5000, thorough=40000)]
 KNOWN = {}
 
 MANIFEST = {
